@@ -335,6 +335,16 @@ fn pw_variants(x: &str, extra_pos: &[usize]) -> Vec<(&'static str, String)> {
     v.push(("append-char", format!("{}x", x)));
     v.push(("append-nul", format!("{}\0", x)));
     v.push(("append-space", format!("{} ", x)));
+    // line endings and other white space a form, a terminal or a file may add: they are part of the secret
+    v.push(("append-lf", format!("{}\n", x)));
+    v.push(("append-crlf", format!("{}\r\n", x)));
+    v.push(("append-cr", format!("{}\r", x)));
+    v.push(("append-tab", format!("{}\t", x)));
+    v.push(("append-nbsp", format!("{}\u{a0}", x)));
+    v.push(("prepend-lf", format!("\n{}", x)));
+    if x.ends_with('\n') || x.ends_with('\r') {
+        v.push(("strip-line-ending", x.trim_end_matches(|c| c == '\r' || c == '\n').to_string()));
+    }
     v.push(("prepend-space", format!(" {}", x)));
     v.push(("prepend-char", format!("y{}", x)));
     v.push(("append-multibyte", format!("{}é", x)));
